@@ -80,3 +80,51 @@ def disj(xs):
     if len(xs) == 1:
         return xs[0]
     return z3.Or(*xs)
+
+
+def is_plain_const(t):
+    return z3.is_const(t) and t.decl().kind() == z3.Z3_OP_UNINTERPRETED
+
+
+def forall_pat(vs, body, arr, r):
+    """forall with the select pattern arr[r] when arr is a plain constant (z3 rejects patterns over ite/store)."""
+    if is_plain_const(arr):
+        return z3.ForAll(vs, body, patterns=[arr[r]])
+    return z3.ForAll(vs, body)
+
+
+def FA(vs, body, patterns=None):
+    """ForAll that drops patterns z3 rejects (patterns over ite/store/lambda terms)."""
+    if patterns:
+        ok = []
+        for p in patterns:
+            if _pattern_ok(p):
+                ok.append(p)
+        if ok:
+            try:
+                return z3.ForAll(vs, body, patterns=ok)
+            except z3.Z3Exception:
+                pass
+    return z3.ForAll(vs, body)
+
+
+_BAD = None
+
+
+def _pattern_ok(p):
+    bad = {z3.Z3_OP_ITE, z3.Z3_OP_STORE, z3.Z3_OP_DISTINCT, z3.Z3_OP_EQ, z3.Z3_OP_AND, z3.Z3_OP_OR, z3.Z3_OP_NOT,
+           z3.Z3_OP_LE, z3.Z3_OP_GE, z3.Z3_OP_LT, z3.Z3_OP_GT, z3.Z3_OP_CONST_ARRAY}
+    stack = [p]
+    seen = set()
+    while stack:
+        x = stack.pop()
+        if x.get_id() in seen:
+            continue
+        seen.add(x.get_id())
+        if z3.is_quantifier(x):
+            return False
+        if z3.is_app(x) and x.decl().kind() in bad:
+            return False
+        if z3.is_app(x):
+            stack.extend(x.children())
+    return True
